@@ -24,7 +24,7 @@ func main() {
 			n := 0
 			for {
 				n++
-				rec := agg.Rec{Key: "k1", Sp: "a", Dp: "b", Ftype: 1, Start: 1, End: 1 + n, Vals: []int{0, 1, 0, 0, 1, 0}, Reason: 2}
+				rec := agg.Rec{Key: "k1", Sp: "a", Dp: "b", Ftype: 1, Start: 1, End: 1 + n, Vals: []int{0, 1, 0, 0, 1, 0}, Reason: 2, Cip: []int{0, 0, 0, 0}}
 				select {
 				case p.MsgCh <- agg.BuildMessage(rec):
 				case <-quit:
